@@ -151,6 +151,13 @@ pub enum Op {
     PushReverseUndo { x: i8, y: i8, c: CellM },
     BeginAtomic,
     EndAtomic { explicit: bool },
+    /// front-end state changes that register no undo step: dragging the current layer (preview offset) ...
+    Drag { x: i8, y: i8 },
+    DragCancel,
+    /// ... a tool preview in the overlay layer (on = draw a character into it, off = remove the overlay) ...
+    Hover { on: bool, x: i8, y: i8, c: CellM },
+    /// ... and caret colours / insert mode
+    SetCaretState { fg: u8, bg: u8, insert: bool },
 }
 
 impl Op {
@@ -386,6 +393,33 @@ impl Interp {
                 let inner = HarnessCell { layer, pos, old, new: c.to_char() };
                 (st.push_reverse_undo("harness reverse", Box::new(inner), OperationType::Unknown), on_cur)
             }
+            Op::Drag { x, y } => {
+                if let Some(l) = st.get_cur_layer_mut() {
+                    l.set_preview_offset(Some(Position::new(*x as i32, *y as i32)));
+                }
+                (Ok(()), none)
+            }
+            Op::DragCancel => {
+                if let Some(l) = st.get_cur_layer_mut() {
+                    l.set_preview_offset(None);
+                }
+                (Ok(()), none)
+            }
+            Op::Hover { on, x, y, c } => {
+                if *on {
+                    if let Some(o) = st.get_overlay_layer() {
+                        o.set_char((*x as i32, *y as i32), c.to_char());
+                    }
+                } else {
+                    st.get_buffer_mut().remove_overlay();
+                }
+                (Ok(()), none)
+            }
+            Op::SetCaretState { fg, bg, insert } => {
+                st.get_caret_mut().set_attr(icy_engine::TextAttribute::new(*fg as u32, *bg as u32));
+                st.get_caret_mut().insert_mode = *insert;
+                (Ok(()), none)
+            }
             Op::BeginAtomic => {
                 if self.guards.len() < 3 {
                     let g = st.begin_atomic_undo("harness group");
@@ -528,6 +562,10 @@ pub fn alphabet(flip_w: u32) -> Vec<(u32, &'static str, BoxedStrategy<Op>)> {
         (2, "PushReverseUndo", (px(), py(), cell_strategy()).prop_map(|(x, y, c)| Op::PushReverseUndo { x, y, c }).boxed()),
         (3, "BeginAtomic", j(Op::BeginAtomic)),
         (3, "EndAtomic", any::<bool>().prop_map(|explicit| Op::EndAtomic { explicit }).boxed()),
+        (5, "Drag", (-4i8..=12, -3i8..=8).prop_map(|(x, y)| Op::Drag { x, y }).boxed()),
+        (1, "DragCancel", j(Op::DragCancel)),
+        (2, "Hover", (any::<bool>(), px(), py(), cell_strategy()).prop_map(|(on, x, y, c)| Op::Hover { on, x, y, c }).boxed()),
+        (1, "SetCaretState", (0u8..16, 0u8..16, any::<bool>()).prop_map(|(fg, bg, insert)| Op::SetCaretState { fg, bg, insert }).boxed()),
     ]
 }
 
@@ -589,9 +627,9 @@ pub fn reduced_alphabet() -> Vec<Op> {
         Op::ResizeBuffer { layers: true, w: 20, h: 12 },
         Op::Crop,
         Op::CropRect { x: 1, y: 1, w: 6, h: 4 },
-        Op::SetSelection { s: SelM { ax: 0, ay: 0, lx: 4, ly: 3, rect: true, add: 0 } },
-        Op::SetSelection { s: SelM { ax: 3, ay: 2, lx: 9, ly: 6, rect: true, add: 2 } },
-        Op::SetSelection { s: SelM { ax: 2, ay: 1, lx: 1, ly: 3, rect: false, add: 1 } },
+        Op::SetSelection { s: SelM { ax: 0, ay: 0, lx: 4, ly: 3, rect: true, add: 0, locked: false } },
+        Op::SetSelection { s: SelM { ax: 3, ay: 2, lx: 9, ly: 6, rect: true, add: 2, locked: false } },
+        Op::SetSelection { s: SelM { ax: 2, ay: 1, lx: 1, ly: 3, rect: false, add: 1, locked: false } },
         Op::ClearSelection,
         Op::Deselect,
         Op::AddSelectionToMask,
@@ -648,5 +686,8 @@ pub fn reduced_alphabet() -> Vec<Op> {
         Op::PushReverseUndo { x: 2, y: 2, c: c1 },
         Op::BeginAtomic,
         Op::EndAtomic { explicit: false },
+        Op::Drag { x: 4, y: 3 },
+        Op::DragCancel,
+        Op::Hover { on: true, x: 1, y: 1, c: CellM::plain(b'o', 14, 0) },
     ]
 }
